@@ -1830,7 +1830,7 @@ where
         // Check receive_maximum for sending (QoS 1 and 2 packets)
         if packet.qos() == Qos::AtLeastOnce || packet.qos() == Qos::ExactlyOnce {
             if let Some(max) = self.publish_send_max {
-                if self.publish_send_count == max {
+                if self.publish_send_count >= max {
                     events.push(GenericEvent::NotifyError(MqttError::ReceiveMaximumExceeded));
                     if let Some(packet_id) = packet_id_opt {
                         if self.pid_man.is_used_id(packet_id) {
